@@ -14,7 +14,7 @@ git checkout -q -- . ; git clean -fdq
 git checkout -q --detach "$(git -C /repo rev-parse HEAD)" 2>/dev/null
 mkdir -p "$crate/tests"; cp "$OUT/demo.rs" "$crate/tests/demo.rs"
 log=$(mktemp)
-run_demo() { ( cd "$WT" && cargo test -p "$crate" --test demo --offline -j 8 ) >>"$log" 2>&1; }
+run_demo() { ( cd "$WT" && if [ -n "$cmd" ]; then eval "$cmd"; else cargo test -p "$crate" --test demo --offline -j 8; fi ) >>"$log" 2>&1; }
 echo "== demo without patch" >>"$log"; run_demo; a=$?
 if ! git apply "$OUT/patch.diff" >>"$log" 2>&1; then echo "$ID $M: patch does not apply to current HEAD"; tail -5 "$log"; exit 1; fi
 echo "== baseline with patch" >>"$log"
